@@ -28,6 +28,10 @@ func Property(id string) *PropSpec { return props[id] }
 func init() {
 	props["C01"] = &PropSpec{ID: "C01", Engines: []string{"EDGE"}, Rules: []string{"EDGE"},
 		Explanation: "wip"}
+	props["C04"] = &PropSpec{ID: "C04", Engines: []string{"ERRFLOW"}, Rules: []string{"ERRFLOW"},
+		Explanation: "wip"}
+	props["C17"] = &PropSpec{ID: "C17", Engines: []string{"ERRPRED"}, Rules: []string{"ERRPRED", "RESULTLIT", "LEN"},
+		Explanation: "wip"}
 	props["C18"] = &PropSpec{ID: "C18", Engines: []string{"HEAP"}, Rules: []string{"HEAP"},
 		Explanation: "wip"}
 	props["C20"] = &PropSpec{ID: "C20", Engines: []string{"DFSV"}, Rules: []string{"DFSV", "KAHN"},
